@@ -571,9 +571,144 @@ def mk_pathvars(n):
     return PathVars(n)
 
 
+# ------------------------------------------------------------------ parameters named like the method's own identifiers
+NPKG = "cl04n"
+IMPLICIT_ARGS = {"self"}  # a parameter with this identifier duplicates an argument: C01's listed finding, not a request-fidelity case
+
+
+def harvest_tokens(root):
+    """lower-case identifiers of the CODE of the generated endpoints module (every name the method templates use)"""
+    import io
+    import keyword
+    import tokenize
+
+    text = open(os.path.join(root, PKG, "endpoints", "default.py"), encoding="utf-8").read()
+    toks = set()
+    for tk in tokenize.generate_tokens(io.StringIO(text).readline):
+        if tk.type == tokenize.NAME and tk.string == tk.string.lower() and not keyword.iskeyword(tk.string) and len(tk.string) > 1:
+            toks.add(tk.string)
+    return sorted(toks - IMPLICIT_ARGS)
+
+
+def named_spec(tokens):
+    ok = gen.json_resp(schema={"type": "string"})
+    paths = {}
+    for i, t in enumerate(tokens):
+        paths["/q/%d" % i] = {"get": {"operationId": "q%d" % i, "parameters": [_p(t, "query")], "responses": {"200": ok}}}
+        paths["/h/%d" % i] = {"get": {"operationId": "h%d" % i, "parameters": [_p(t, "header"), _p("zq", "query")], "responses": {"200": ok}}}
+        paths["/c/%d" % i] = {"get": {"operationId": "c%d" % i, "parameters": [_p(t, "cookie", True), _p("zh", "header")], "responses": {"200": ok}}}
+    return gen.base_spec(paths=paths)
+
+
+_NP = {}
+
+
+def named_pkgs(instrumented):
+    if instrumented not in _NP:
+        root = root_dir()
+        if root not in sys.path:
+            sys.path.insert(0, root)
+        name = hook.add_root(NPKG, os.path.join(root, NPKG)) if instrumented else NPKG
+        _NP[instrumented] = importlib.import_module(name + ".endpoints.default")
+    return _NP[instrumented]
+
+
+def tokens_now():
+    return json.load(open(os.path.join(root_dir(), "tokens.json")))
+
+
+def call_named(instrumented, kind, idx, value, other):
+    import inspect
+
+    ep = named_pkgs(instrumented)
+    rec = Rec(200)
+    c = ep.DefaultClient(rec, "http://h")
+    m = getattr(c, "%s%d" % (kind, idx))
+    sibling = {"q": None, "h": "zq", "c": "zh"}[kind]
+    names = [p for p in inspect.signature(m).parameters if p != sibling]
+    if len(names) != 1:
+        return ("SIGNATURE", names)
+    kw = {}
+    if value is not None:
+        kw[names[0]] = value
+    if sibling and other is not None:
+        kw[sibling] = other
+    drive(m(**kw))
+    return [(mm, u, {kk: _plain(vv) for kk, vv in k.items()}) for mm, u, k in rec.calls]
+
+
+class NamedParam(Obligation):
+    """A query / header / cookie parameter whose NAME is any identifier the generated method uses itself (url, params,
+    headers, response, cast, json ...) still goes on the wire under its own name with the caller's value."""
+
+    functions = RequestOb.functions
+    alphabet = VAL
+    SHADOWING = {"url", "params", "headers", "cookies", "cast"}  # listed known finding (label param-name-shadows-method-local)
+
+    def __init__(self, kind, slen):
+        self.kind, self.slen = kind, slen
+        self.name = "named_param/%s/strlen=%d" % ({"q": "query", "h": "header", "c": "cookie"}[kind], slen)
+        self.bounds = {"parameter_name": "every lower-case identifier token of the generated endpoints module (harvested this run)", "location": self.name.split("/")[1],
+                       "value": "symbolic string of length %d or absent" % slen, "sibling parameter": "present / absent"}
+
+    def make_inputs(self, e):
+        toks = tokens_now()
+        i = e.choose(len(toks), "token")
+        required = self.kind == "c"
+        return {"idx": i, "token": toks[i], "value": mk_sym_str(self.slen, "v", VAL) if (required or e.choose(2, "given")) else None,
+                "other": mk_sym_str(1, "o", VAL) if (self.kind != "q" and e.choose(2, "sibling")) else None}
+
+    def run_sym(self, inp):
+        return call_catching(call_named, True, self.kind, inp["idx"], inp["value"], inp["other"])
+
+    def run_real(self, inp):
+        return call_catching(call_named, False, self.kind, inp["idx"], inp["value"], inp["other"])
+
+    def verdict(self, inp, r):
+        if isinstance(r, Raised):
+            return False, "the call raised %r" % (r,)
+        if r and r[0] == "SIGNATURE":
+            return False, "method arguments %r" % (r[1],)
+        if len(r) != 1:
+            return False, "%d requests issued" % len(r)
+        m, u, kw = r[0]
+        eu = "http://h/%s/%d" % (self.kind, inp["idx"])
+        if not (len(u) == len(eu) and bool(u == eu)):
+            return False, "url %r, expected %r" % (u, eu)
+        exp = {"params": [], "headers": [], "cookies": []}
+        key = {"q": "params", "h": "headers", "c": "cookies"}[self.kind]
+        if inp["value"] is not None:
+            exp[key].append((inp["token"], inp["value"]))
+        if inp["other"] is not None:
+            exp["params" if self.kind == "h" else "headers"].append(("zq" if self.kind == "h" else "zh", inp["other"]))
+        for k in ("params", "headers", "cookies"):
+            if not _items_eq(kw.get(k), exp[k]):
+                return False, "%s sent %r, expected %r" % (k, kw.get(k), exp[k])
+        return True, ""
+
+    def prop(self, inp, r):
+        return self.verdict(inp, r)[0]
+
+    def known(self, inp, r):
+        if inp["token"] in self.SHADOWING and not self.verdict(inp, r)[0]:
+            return "param-name-shadows-method-local"
+        return None
+
+    def describe_violation(self, inp, r):
+        return "%s parameter named %r, value %r: %s" % (self.name.split("/")[1], inp["token"], inp["value"], self.verdict(inp, r)[1])
+
+
+def mk_named(kind, slen):
+    return NamedParam(kind, slen)
+
+
 def prepare():
     root = gen.workdir("c04", fresh=True)
     files, err = gen.generate(spec(), root, PKG)
+    if not err:
+        toks = harvest_tokens(root)
+        json.dump(toks, open(os.path.join(root, "tokens.json"), "w"))
+        files, err = gen.generate(named_spec(toks), root, NPKG)
     return root, err
 
 
@@ -583,6 +718,8 @@ def specs(tier):
         out.append((MOD, "mk", (opname, 1)))
         if tier == "thorough":
             out.append((MOD, "mk", (opname, 2)))
+    for kind in "qhc":
+        out.append((MOD, "mk_named", (kind, 1)))
     for n in (range(0, 4) if tier == "quick" else range(0, 6)):
         out.append((MOD, "mk_idem", (n,)))
     for n in (range(0, 5) if tier == "quick" else range(0, 7)):
@@ -599,7 +736,7 @@ def run(tier, rep, only=None):
     if err:
         rep.violations.append({"obligation": "generate(cl04)", "inputs": {"spec": "T_req"}, "detail": "generation failed: " + err})
         return
-    p = subprocess.run([sys.executable, "-c", "import cl04.endpoints.default"], cwd=root, capture_output=True, text=True, env=dict(os.environ, PYTHONPATH=root))
+    p = subprocess.run([sys.executable, "-c", "import cl04.endpoints.default, cl04n.endpoints.default"], cwd=root, capture_output=True, text=True, env=dict(os.environ, PYTHONPATH=root))
     if p.returncode != 0:
         rep.violations.append({"obligation": "import(cl04)", "inputs": {"spec": "T_req"}, "detail": "generated endpoints module does not import: " + (p.stderr.strip().splitlines() or ["?"])[-1][:300]})
         return
@@ -620,6 +757,9 @@ def replay(path):
         parts = name.split("/")
         opname = "/".join(parts[1:-1])
         ob = RequestOb(opname, int(parts[-1].split("=")[1]))
+    elif name.startswith("named_param/"):
+        prepare()
+        ob = NamedParam({"query": "q", "header": "h", "cookie": "c"}[name.split("/")[1]], int(name.split("=")[1]))
     elif "_idempotent" in name:
         fn = name.split("/")[1][: -len("_idempotent")]
         ob = Idempotent(len(v["inputs"]["s"]), "sanitize_method_name" if fn == "sanitize" else fn)
